@@ -413,7 +413,10 @@ pub fn compile(c: &Case) -> Raw {
                     let mut lines: Vec<String> = text.split('\n').map(|s| s.to_string()).collect();
                     let i = ((*line as u64 * lines.len() as u64) >> 32) as usize;
                     let repl = ["", "    nop", "    lda #", "foo bar", "}", "{", "newlab: rts", "    jmp newlab", ".const added = 3", "    lda undefinedname", ".import * from \"lib.asm\"", "// comment", ".macro rec() { rec() }", "    rec()", ".import * from \"ghost.asm\"", ".segment \"my.code\" { nop }", ".segment \"default\" { .segment \"default\" { nop } }", ".segment \"default\" {"];
-                    lines[i] = repl[(*variant as usize) % repl.len()].to_string();
+                    // (added later, and chosen in a way that leaves the older stored cases what they were)
+                    let spanning = [".const wide = 40 /* größe\n\n    äöüäöüäöüäöü */ * 2", "    lda #1 + /* ü\n*/ 2", "    .byte 1, /* 😀😀\n\n 😀 */ 2"];
+                    let v = *variant as usize;
+                    lines[i] = if v % 7 == 3 { spanning[(v / 7) % spanning.len()].to_string() } else { repl[v % repl.len()].to_string() };
                     let new = lines.join("\n");
                     buffers.insert(f.to_string(), new.clone());
                     changed.insert(f.to_string(), true);
@@ -677,6 +680,14 @@ pub fn run_raw(raw: &Raw, log: &mut CaseLog) -> Verdict {
         }
         Err(LspErr::Error(e)) => return Verdict::fail("error-response|battery", format!("{}", e)),
     };
+    for f in ["main.asm", "lib.asm"] {
+        let text = buffers.get(f).or(disk.get(f)).cloned().unwrap_or_default();
+        if let Some(resp) = final_answers.get(&format!("textDocument/semanticTokens/full {}", f)) {
+            if let Some(why) = check_semantic_tokens(resp, &text) {
+                return Verdict::fail("semantic-tokens-malformed", format!("history:\n{}\n(final battery) {}\nbuffer of {}:\n{}\n{}", trace.join("\n"), why, f, text, resp));
+            }
+        }
+    }
     let final_diags = diagnostics_of(&s);
     let mut fresh: Vec<(BTreeMap<String, Value>, BTreeMap<String, Value>)> = vec![];
     for _ in 0..2 {
